@@ -18,23 +18,44 @@ RULE = ("cases: (1) exhaustive: every ordered tuple of <=3 (quick) / <=4 (thorou
         "cleavages, min_length 2); (2) random larger structures (chains of subsets, a protein inside two others, "
         "equal sets, repeated peptides in a sequence, junk below min_length, descriptions, wrapped sequences, two "
         "files, other prefixes, entry-order shuffles of the same structure); (2b) names with the decoy prefix inside, "
-        "at the end, bare, truncated, upper-cased, doubled; (3) random sequences digested with "
+        "at the end, bare, truncated, upper-cased, doubled; (2c) decoy prefixes that contain regular-expression "
+        "metacharacters ('rev.', 'd|x', 'dec+', '[d]', '^d', 'de?', 'd*', '(d)', 'rev\\') with names that the prefix "
+        "would match as a pattern but does not literally start; (2d) large structures (12-60 proteins over 10-28 "
+        "peptides, several maximal sets, proteins inside 1-4 of them, equal sets, sub-subsets), each in 3 entry orders; "
+        "(2e) file-level variation of small structures: 1-4 files, each with 0/1/2 final line ends (also the non-last "
+        "ones), LF or CRLF, blank lines between entries and inside sequences, sequences wrapped to 1..7 characters "
+        "per line, per-entry descriptions (also with '>' , tabs and double blanks inside), the argument given as str / "
+        "pathlib.Path / tuple / list / mixed list, names with , ; | : . # and names that are prefixes of each other; "
+        "(3) random sequences digested with "
         "random parameters (missed cleavages, semi, clip, min/max length) where the incidence is what the public "
-        "mokapot.digest returns per protein; (4) malformed: repeated protein names, only decoys, no peptides, empty "
-        "file.  Every case is run by the real code in one subprocess per PYTHONHASHSEED (3 quick / 5 thorough) and "
-        "all seeds must give the same canonical result; the model is run with a pseudo-random member of the family "
+        "mokapot.digest returns per protein; (3b) structures realised with other enzymes ([KR](?!P), K, [FWY], R|K, "
+        "a compiled case-insensitive [kr] on lower-case sequences; pattern given as str or compiled), digest "
+        "parameters explicit, partly or wholly left to read_fasta's defaults, or all arguments positional, combined "
+        "with the name / prefix / file-level variation above, each also in a second entry order; the incidence is what "
+        "the public mokapot.digest returns for the same parameters; (4) malformed: repeated protein names, only "
+        "decoys, no peptides, empty file.  Every case is run by the real code in one subprocess per PYTHONHASHSEED "
+        "(3 fixed + 1 derived from the run seed, quick; 5 + 1 thorough) and "
+        "all seeds must give the same canonical result; in every subprocess every 4th case is run a second time at the "
+        "end, in reverse order, and must give the same result (call order / leftover state); the model is run with a "
+        "pseudo-random member of the family "
         "of iteration orders gr_perm k.  distinct = distinct (entries, names, realisation); non-trivial = some "
-        "protein's peptide set is contained in another's, or a peptide is shared")
+        "protein's peptide set is contained in another's, or a peptide is shared (also for the malformed stream)")
 ASSUMPTIONS = [
     "protein names contain no blank (read_fasta keeps the header up to the first blank), hence no ', ' or '; ': "
     "group names and shared-peptide strings are split back into member lists on these separators",
     "results are compared as sets: group name -> sorted member list, shared peptide -> set of groups, "
-    "protein_map as a dict; the member order inside a name and dict orders are not compared",
+    "protein_map as a dict; the member order inside a name and dict orders are not compared; but one group must be "
+    "written with ONE name string wherever it occurs in peptide_map / shared_peptides (reported as name_variants)",
     "the iteration order of the set `matches` is not observable; the model is executed with members of the family "
     "gr_perm k and the theorem C16_order_free covers every permutation-valued oracle",
+    "the first character of the first file is '>' (read_fasta drops it unseen), no file is empty, no tab directly "
+    "after a protein name, no trailing blanks on sequence lines: such files are outside the generated domain",
+    "Proteins.decoy_prefix must be the prefix that was passed (checked by the harness only, not part of the model)",
 ]
-TRUSTED_EXTRA = ["mokapot.digest per protein as the incidence oracle in the 'digest' stream (C17 covers digest itself)",
-                 "FASTA text layout produced by the harness (header line, optional description, wrapped sequence)"]
+TRUSTED_EXTRA = ["mokapot.digest per protein as the incidence oracle in the 'digest' and 'realised' streams (C17 covers "
+                 "digest itself)",
+                 "FASTA text layout produced by the harness (header line, optional description, wrapped sequence, "
+                 "line ends, blank lines, distribution over files)"]
 
 HASHSEEDS_QUICK = ["0", "1", "12345"]
 HASHSEEDS_THOROUGH = ["0", "1", "12345", "777", "4242424242"]
@@ -55,8 +76,34 @@ def pepstr(i):
 
 
 # ----------------------------------------------------------------------------- realisation
+def _fasta_texts_fmt(case, fmt):
+    """file-level variation: wrap width, line end, blank lines, entries distributed over files, final line ends"""
+    eol = fmt.get("eol", "\n")
+    recs = []
+    for e in case["entries"]:
+        seq = e["seq"]
+        w = fmt.get("wrap", 0)
+        if seq:
+            lines = [seq[j:j + w] for j in range(0, len(seq), w)] if w else [seq]
+        else:
+            lines = []
+        if fmt.get("blankin") and len(lines) > 1:
+            lines.insert(1, "")
+        recs.append(eol.join([">" + e["name"] + e.get("desc", "")] + lines))
+    if not recs:
+        return [""]
+    n = len(recs)
+    nf = max(1, min(int(fmt.get("nfiles", 1)), n))
+    cut = [(j * n) // nf for j in range(nf + 1)]
+    fin = fmt.get("finalnl") or [1]
+    sep = eol * (1 + int(fmt.get("blank", 0)))
+    return [sep.join(recs[cut[j]:cut[j + 1]]) + eol * int(fin[j % len(fin)]) for j in range(nf)]
+
+
 def fasta_texts(case):
     """-> list of file contents"""
+    if case.get("fmt") is not None:
+        return _fasta_texts_fmt(case, case["fmt"])
     lay = case.get("layout", "plain")
     recs = []
     for e in case["entries"]:
@@ -75,11 +122,37 @@ def fasta_texts(case):
     return ["\n".join(recs) + ("\n" if lay != "nofinalnl" else "")]
 
 
-def _kwargs(case):
-    kw = dict(enzyme="[KR]", missed_cleavages=0, clip_nterm_methionine=False, min_length=2, max_length=50,
-              semi=False, decoy_prefix=case.get("prefix", "decoy_"))
+# what read_fasta documents as its defaults (used when a case leaves an argument out)
+_RF_DEFAULTS = dict(enzyme="[KR]", missed_cleavages=2, clip_nterm_methionine=False, min_length=6, max_length=50,
+                    semi=False, decoy_prefix="decoy_")
+_RF_ORDER = ["enzyme", "missed_cleavages", "clip_nterm_methionine", "min_length", "max_length", "semi", "decoy_prefix"]
+
+
+def _explicit(case):
+    """the arguments the case passes explicitly (enzyme still as its description)"""
+    kw = dict(enzyme=case.get("enzyme") or {"pattern": "[KR]"}, missed_cleavages=0, clip_nterm_methionine=False,
+              min_length=2, max_length=50, semi=False, decoy_prefix=case.get("prefix", "decoy_"))
     kw.update(case.get("digest", {}))
+    for o in case.get("omit", []):
+        kw.pop(o, None)
     return kw
+
+
+def effective_digest(case):
+    """(enzyme description, digest keyword arguments) that read_fasta has to use for this case"""
+    kw = _explicit(case)
+    for o in case.get("omit", []):
+        kw[o] = {"pattern": _RF_DEFAULTS[o]} if o == "enzyme" else _RF_DEFAULTS[o]
+    enz = kw.pop("enzyme")
+    kw.pop("decoy_prefix")
+    return enz, kw
+
+
+def _mk_enzyme(enz):
+    import re
+    if enz.get("compiled"):
+        return re.compile(enz["pattern"], int(enz.get("flags", 0)))
+    return enz["pattern"]
 
 
 def _canon_real(case, prot):
@@ -89,24 +162,67 @@ def _canon_real(case, prot):
     uniq = sorted([ids[p], members(g)] for p, g in prot.peptide_map.items())
     shared = sorted([ids[p], sorted(members(g) for g in v.split("; "))] for p, v in prot.shared_peptides.items())
     pmap = sorted([t, d] for t, d in prot.protein_map.items())
-    return {"unique": uniq, "shared": shared, "pmap": pmap, "has_decoys": bool(prot.has_decoys)}
+    out = {"unique": uniq, "shared": shared, "pmap": pmap, "has_decoys": bool(prot.has_decoys)}
+    # one group = one name string, wherever it is written
+    raw = {}
+    for g in list(prot.peptide_map.values()) + [x for v in prot.shared_peptides.values() for x in v.split("; ")]:
+        raw.setdefault(tuple(members(g)), set()).add(g)
+    variants = sorted(sorted(v) for v in raw.values() if len(v) > 1)
+    if variants:
+        out["name_variants"] = variants
+    if prot.decoy_prefix != case.get("prefix", "decoy_"):
+        out["decoy_prefix_attr"] = repr(prot.decoy_prefix)
+    for nm, val in (("peptide_map", prot.peptide_map), ("shared_peptides", prot.shared_peptides),
+                    ("protein_map", prot.protein_map)):
+        if not isinstance(val, dict) or not all(isinstance(k, str) and isinstance(v, str) for k, v in val.items()):
+            out["bad_type_" + nm] = True
+    return out
 
 
 def run_real(case, tmpdir):
     """one real read_fasta call in this process"""
+    from pathlib import Path
     from mokapot import read_fasta
     texts = fasta_texts(case)
+    # the same paths are written again and again with other content (a cache keyed by path would show)
     paths = []
     for n, t in enumerate(texts):
         p = os.path.join(tmpdir, f"f{n}.fasta")
-        with open(p, "w") as f:
+        with open(p, "w", newline="") as f:
             f.write(t)
         paths.append(p)
-    arg = paths[0] if len(paths) == 1 else tuple(paths)
+    cont = (case.get("fmt") or {}).get("container")
+    if cont is None:
+        arg = paths[0] if len(paths) == 1 else tuple(paths)
+    elif cont == "str":
+        arg = paths[0] if len(paths) == 1 else tuple(paths)
+    elif cont == "path":
+        arg = Path(paths[0]) if len(paths) == 1 else tuple(Path(p) for p in paths)
+    elif cont == "tuple":
+        arg = tuple(paths)
+    elif cont == "list":
+        arg = list(paths)
+    elif cont == "list-path":
+        arg = [Path(p) for p in paths]
+    elif cont == "mixed":
+        arg = [Path(p) if n % 2 == 0 else p for n, p in enumerate(paths)]
+    else:
+        raise ValueError("unknown container " + str(cont))
+    kw = _explicit(case)
+    if "enzyme" in kw:
+        kw["enzyme"] = _mk_enzyme(kw["enzyme"])
+    if case.get("call") == "pos":
+        args = [kw[k] for k in _RF_ORDER]          # needs every argument explicit
+        kw = {}
+    else:
+        args = []
     def go():
-        return _canon_real(case, read_fasta(arg, **_kwargs(case)))
+        return _canon_real(case, read_fasta(arg, *args, **kw))
     r = lib.call_impl(go)
     return [r[0], r[1]]
+
+
+RERUN_EVERY = 4
 
 
 def _worker_main():
@@ -115,23 +231,33 @@ def _worker_main():
     cases = json.loads(sys.stdin.read())
     out = []
     with tempfile.TemporaryDirectory(prefix="c16_") as d:
-        for c in cases:
+        def one(c):
             try:
-                out.append(run_real(c, d))
+                return run_real(c, d)
             except BaseException as e:  # noqa
-                out.append(["crash", f"{type(e).__name__}: {e}"[:200]])
+                return ["crash", f"{type(e).__name__}: {e}"[:200]]
+        for c in cases:
+            out.append(one(c))
+        # call order / leftover state: a sample of the cases once more, in reverse order, after everything else
+        for j in range(len(cases) - 1, -1, -1):
+            if j % RERUN_EVERY == 0:
+                again = one(cases[j])
+                if again != out[j]:
+                    out[j] = ["order-dependent", {"first": out[j], "again": again}]
     sys.stdout.write(json.dumps(out))
 
 
 def _digest_main():
-    """incidence oracle for the 'digest' stream: the public mokapot.digest per sequence"""
+    """incidence oracle for the 'digest' / 'realised' streams: the public mokapot.digest per sequence"""
     import logging
     logging.disable(logging.CRITICAL)
     from mokapot import digest
     jobs = json.loads(sys.stdin.read())
     out = []
     for seqs, kw in jobs:
-        out.append([sorted(digest(s, enzyme_regex="[KR]", **kw)) for s in seqs])
+        kw = dict(kw)
+        enz = _mk_enzyme(kw.pop("enzyme", None) or {"pattern": "[KR]"})
+        out.append([sorted(digest(s, enzyme_regex=enz, **kw)) for s in seqs])
     sys.stdout.write(json.dumps(out))
 
 
@@ -196,21 +322,177 @@ def _real_batch(cases, seeds):
 
 
 # ----------------------------------------------------------------------------- case construction
-def mk_case(struct, names, k, tags, prefix="decoy_", layout="plain", extra_seq=None):
+def mk_case(struct, names, k, tags, prefix="decoy_", layout="plain", extra_seq=None, fmt=None, descs=None):
     """struct: list of peptide-id lists (repetitions allowed); names: list of protein names"""
     used = sorted({i for ps in struct for i in ps})
     entries = []
     for n, (nm, ps) in enumerate(zip(names, struct)):
         seq = "".join(pepstr(i) for i in ps)
+        e = {"name": nm, "peps": list(ps)}
         if extra_seq and extra_seq[n]:
             seq += extra_seq[n]
-        entries.append({"name": nm, "peps": list(ps), "seq": seq})
-    return {"fn": "read_fasta", "entries": entries, "prefix": prefix, "layout": layout, "k": k,
-            "pepids": [[pepstr(i), i] for i in used], "tags": list(tags)}
+            e["tail"] = extra_seq[n]
+        e["seq"] = seq
+        if descs and descs[n]:
+            e["desc"] = descs[n]
+        entries.append(e)
+    c = {"fn": "read_fasta", "entries": entries, "prefix": prefix, "layout": layout, "k": k,
+         "pepids": [[pepstr(i), i] for i in used], "tags": list(tags)}
+    if fmt is not None:
+        c["fmt"] = fmt
+    return c
+
+
+# ---- building blocks of the random streams
+def _rand_struct(rng, npep=None):
+    """(kind, struct): chains of subsets, a protein inside several others, equal sets, free"""
+    npep = npep or rng.randint(3, 9)
+    kind = rng.choice(["chain", "two-parents", "equal", "free", "mixed"])
+    struct = []
+    allp = list(range(npep))
+    if kind == "chain":
+        cur = rng.sample(allp, rng.randint(2, npep))
+        while cur:
+            struct.append(list(cur))
+            if rng.random() < 0.3:
+                struct.append(list(cur))
+            cur = cur[:rng.randint(0, len(cur) - 1)] if rng.random() < 0.8 else cur[:-1]
+    elif kind == "two-parents":
+        core = rng.sample(allp, rng.randint(1, max(1, npep - 2)))
+        rest = [p for p in allp if p not in core]
+        for _k in range(rng.randint(2, 4)):
+            extra = rng.sample(rest, rng.randint(1, len(rest))) if rest else []
+            struct.append(core + extra)
+        struct.append(list(core))
+        if rng.random() < 0.5:
+            struct.append(core[:max(1, len(core) - 1)])
+    elif kind == "equal":
+        base = rng.sample(allp, rng.randint(1, npep))
+        for _k in range(rng.randint(2, 4)):
+            struct.append(rng.sample(base, len(base)))
+        struct.append(rng.sample(allp, rng.randint(0, npep)))
+    else:
+        for _k in range(rng.randint(2, 8)):
+            struct.append(rng.sample(allp, rng.randint(0, npep)))
+    if kind == "mixed":
+        struct = [ps + ([rng.choice(ps)] if ps and rng.random() < 0.5 else []) for ps in struct]
+    rng.shuffle(struct)
+    return kind, struct
+
+
+def _large_struct(rng):
+    """12-60 proteins over 10-28 peptides: several maximal sets, proteins inside 1-4 of them, equal sets, sub-subsets"""
+    npep = rng.randint(10, 28)
+    allp = list(range(npep))
+    tops = [rng.sample(allp, rng.randint(4, max(5, (2 * npep) // 3))) for _ in range(rng.randint(3, 7))]
+    struct = [list(t) for t in tops]
+    for _ in range(rng.randint(8, 50)):
+        r = rng.random()
+        if r < 0.55:
+            par = rng.sample(tops, rng.randint(1, min(4, len(tops))))
+            inter = [x for x in par[0] if all(x in q for q in par[1:])]
+            base = inter or par[0]
+        elif r < 0.8:
+            base = rng.choice(struct)               # a subset of anything so far (sub-subsets, chains)
+        else:
+            base = None
+        if base is None:
+            struct.append(rng.sample(allp, rng.randint(0, 4)))
+        elif rng.random() < 0.2:
+            struct.append(rng.sample(base, len(base)))      # an equal set
+        else:
+            struct.append(rng.sample(base, rng.randint(1, len(base))) if base else [])
+    rng.shuffle(struct)
+    return struct
+
+
+PREFIXES = ["decoy_", "decoy_", "rev_", "d", "XX"]
+META_PREFIXES = {            # prefix -> names that the prefix matches as a pattern without being a literal start
+    "rev.": ["revXA", "rev_A", "revA"],
+    "d|x": ["dA", "xA", "d", "x|A"],
+    "dec+": ["decA", "deccA", "decc+A"],
+    "[d]": ["dA", "d]A", "[A"],
+    "^d": ["dA", "d", "^A"],
+    "de?": ["dA", "deA", "d"],
+    "d*": ["A", "ddA", "dA"],
+    "(d)": ["dA", "(dA", "d)A"],
+    "rev\\": ["revA", "rev", "rev/A"],
+}
+_NAME_SHAPES = ["sp|Q%d|X", "P%d", "d%d", "tr|A%d|B_HUMAN", "P%d,x", "g%d;y", "N%d.1", "#%d", "ENSP%d:a", "P%d-2",
+                "P", "P%d%d", "p%d"]
+DESCS = ["", "", " some description OS=x", " 5'->3' exonuclease OS=Homo sapiens", " >", " a  b", " x\ty z",
+         "  two blanks first", " ", " >P0 looks like a header", " decoy_ rev_ d"]
+CONTAINERS = ["str", "str", "path", "tuple", "list", "list-path", "mixed"]
+
+
+def _rand_names(rng, n, prefix, crafted=()):
+    names = []
+    for j in range(n):
+        r = rng.random()
+        shape = rng.choice(_NAME_SHAPES)
+        base = shape % ((j,) * shape.count("%d")) if "%d" in shape else shape + "x" * j
+        if crafted and r < 0.3:
+            names.append(rng.choice(list(crafted)))
+        elif r < 0.3 and names:
+            names.append(prefix + rng.choice(names))
+        elif r < 0.4:
+            names.append(prefix + base)
+        elif r < 0.5:
+            names.append(rng.choice([prefix.upper() + str(j), "X" + prefix + str(j), "T%d_" % j + prefix,
+                                     prefix[:-1] + str(j)]))
+        else:
+            names.append(base)
+    seen = set()
+    for j, nm in enumerate(names):
+        nm = nm.replace(" ", "_") or "q"
+        while nm in seen:
+            nm = nm + "x"
+        seen.add(nm)
+        names[j] = nm
+    return names
+
+
+def _rand_fmt(rng, n):
+    nf = rng.choice([1, 1, 2, 2, 3, 4])
+    return {"wrap": rng.choice([0, 0, 1, 2, 3, 5, 7]), "eol": rng.choice(["\n", "\n", "\r\n"]),
+            "blank": rng.choice([0, 0, 1, 2]), "blankin": rng.random() < 0.2, "nfiles": nf,
+            "finalnl": [rng.choice([0, 0, 1, 1, 2]) for _ in range(nf)], "container": rng.choice(CONTAINERS)}
+
+
+def _fmt_tags(c):
+    f = c["fmt"]
+    nf = max(1, min(f["nfiles"], len(c["entries"]) or 1))
+    tg = [f"files={nf}", "container=" + f["container"], "eol=" + ("crlf" if f["eol"] == "\r\n" else "lf")]
+    if any(f["finalnl"][j % len(f["finalnl"])] == 0 for j in range(nf - 1)):
+        tg.append("inner-file-without-final-eol")
+    if f["wrap"]:
+        tg.append("wrapped")
+    if f["blank"] or f["blankin"]:
+        tg.append("blank-lines")
+    if any(">" in e.get("desc", "") for e in c["entries"]):
+        tg.append("gt-in-description")
+    return tg
+
+
+ENZYMES = [   # (enzyme description, letters for peptide bodies, cleavage letters)
+    ({"pattern": "[KR]"}, "ACDEFGHILMNPQSTVWY", "KR"),
+    ({"pattern": "[KR](?!P)"}, "ACDEFGHILMNPPPQSTVWY", "KR"),
+    ({"pattern": "K"}, "ACDEFGHILMNPQRSTVWY", "K"),
+    ({"pattern": "[FWY]"}, "ACDEGHIKLMNPQRSTV", "FWY"),
+    ({"pattern": "R|K"}, "ACDEFGHILMNPQSTVWY", "KR"),
+    ({"pattern": "[kr]", "flags": 2, "compiled": True}, "acdefghilmnpqstvwy", "kr"),      # re.IGNORECASE == 2
+]
 
 
 def _subsets(npep):
     return [[i for i in range(npep) if m >> i & 1] for m in range(1 << npep)]
+
+
+def _max_parents(struct):
+    """the largest number of different maximal peptide sets that contain one protein"""
+    sets = {frozenset(t) for t in struct if t}
+    mx = [t for t in sets if not any(t < u for u in sets)]
+    return max([sum(1 for t in mx if q <= t) for q in sets] or [0])
 
 
 def _multi(struct):
@@ -226,7 +508,10 @@ def _multi(struct):
 
 def gen(ctx):
     global _SEEDS
-    _SEEDS = HASHSEEDS_THOROUGH if ctx.thorough else HASHSEEDS_QUICK
+    _SEEDS = list(HASHSEEDS_THOROUGH if ctx.thorough else HASHSEEDS_QUICK)
+    extra_seed = str(ctx.sub("hashseed").randrange(1, 2 ** 32))
+    if extra_seed not in _SEEDS:
+        _SEEDS.append(extra_seed)
     cases = []
     rk = ctx.sub("perm")
     # (1) exhaustive small scope: ordered tuples = every structure in every entry order
@@ -323,6 +608,45 @@ def gen(ctx):
             for struct in ([[0, 1], [1], [2]], [[0], [0], [0, 1]]):
                 cases.append(mk_case(struct, list(names), rk.randrange(24), ["prefix-position", "prefix=" + pre],
                                      prefix=pre))
+    # (2c) decoy prefixes with regular-expression metacharacters: startswith is literal
+    rng = ctx.sub("meta-prefix")
+    for pre, crafted in META_PREFIXES.items():
+        pool = ["A", pre + "A", "x" + pre + "A", pre, "B", pre + "B"] + list(crafted)
+        combos = list(itertools.combinations(pool, 3))
+        if not ctx.thorough:
+            combos = rng.sample(combos, 30)
+        for names in combos:
+            for struct in ([[0, 1], [1], [2]], [[0], [0], [0, 1]]):
+                cases.append(mk_case(struct, list(names), rk.randrange(24), ["meta-prefix", "prefix=" + pre],
+                                     prefix=pre))
+    # (2d) large structures, each in three entry orders
+    rng = ctx.sub("large")
+    for _ in range(150 if ctx.thorough else 30):
+        struct = _large_struct(rng)
+        prefix = rng.choice(PREFIXES)
+        names = _rand_names(rng, len(struct), prefix)
+        for o in range(3):
+            perm = list(range(len(struct)))
+            if o:
+                rng.shuffle(perm)
+            nmatch = _max_parents(struct)
+            cases.append(mk_case([struct[i] for i in perm], [names[i] for i in perm], rng.randrange(5040),
+                                 ["large", "prefix=" + prefix, "supersets<=%d" % min(nmatch, 6)]
+                                 + (["reordered"] if o else []), prefix=prefix))
+    # (2e) file-level variation of small structures
+    rng = ctx.sub("files")
+    for _ in range(1200 if ctx.thorough else 300):
+        kind, struct = _rand_struct(rng, rng.randint(2, 6))
+        struct = struct[:6] or [[0]]
+        prefix = rng.choice(PREFIXES)
+        names = _rand_names(rng, len(struct), prefix)
+        fmt = _rand_fmt(rng, len(struct))
+        descs = [rng.choice(DESCS) for _ in struct]
+        extra = [rng.choice(["", "", "", "G", "A", "W"]) for _ in struct]
+        c = mk_case(struct, names, rng.randrange(720), ["files", kind, "prefix=" + prefix], prefix=prefix,
+                    extra_seq=extra, fmt=fmt, descs=descs)
+        c["tags"] += _fmt_tags(c)
+        cases.append(c)
     # (3) random sequences through the real digest with random parameters
     rng = ctx.sub("digest")
     ndig = 600 if ctx.thorough else 150
@@ -355,6 +679,79 @@ def gen(ctx):
             cases.append({"fn": "read_fasta", "entries": entries, "prefix": "decoy_", "layout": "plain", "k": k,
                           "digest": kw, "pepids": [[p, i] for p, i in ids.items()],
                           "tags": ["digest", f"mc={kw['missed_cleavages']}"] + (["semi"] if kw["semi"] else [])})
+    # (3b) structures realised with other enzymes / digest parameters / defaults / positional arguments, combined with
+    #      the name, prefix and file-level variation; the incidence is what the public digest returns
+    rng = ctx.sub("realised")
+    jobs, metas = [], []
+    for _ in range(900 if ctx.thorough else 220):
+        kind, struct = _rand_struct(rng, rng.randint(3, 8))
+        struct = struct[:8]
+        style = rng.choice(["explicit", "explicit", "partial", "defaults", "positional"])
+        enz, letters, cuts = rng.choice(ENZYMES)
+        enz = dict(enz)
+        if "compiled" not in enz:
+            enz["compiled"] = rng.random() < 0.4
+        omit_enzyme = style in ("defaults", "partial") and rng.random() < 0.4
+        if omit_enzyme:                      # read_fasta's own default enzyme
+            enz, letters, cuts = dict(ENZYMES[0][0], compiled=False), ENZYMES[0][1], ENZYMES[0][2]
+        npep = 1 + max([i for ps in struct for i in ps] or [0])
+        frags = []
+        for i in range(npep):
+            body = "".join(rng.choice(letters) for _ in range(rng.randint(1, 7)))
+            frags.append(body + rng.choice(cuts))
+        seqs = []
+        for ps in struct:
+            sq = "".join(frags[i] for i in ps)
+            if rng.random() < 0.25:
+                sq = ("m" if letters.islower() else "M") + sq
+            if rng.random() < 0.25:
+                sq += "".join(rng.choice(letters) for _ in range(rng.randint(1, 3)))
+            seqs.append(sq)
+        dg = {"missed_cleavages": rng.choice([0, 0, 1, 2, 3]), "clip_nterm_methionine": rng.random() < 0.3,
+              "min_length": rng.randint(1, 7), "max_length": rng.choice([6, 9, 15, 50]), "semi": rng.random() < 0.15}
+        omit = []
+        if style == "defaults":
+            omit = [k for k in _RF_ORDER if k != "enzyme"]
+        elif style == "partial":
+            omit = [k for k in _RF_ORDER if k != "enzyme" and rng.random() < 0.4]
+        if omit_enzyme:
+            omit.append("enzyme")
+        if "decoy_prefix" in omit:
+            prefix, crafted = "decoy_", ()
+        elif rng.random() < 0.3:
+            prefix = rng.choice(sorted(META_PREFIXES))
+            crafted = META_PREFIXES[prefix]
+        else:
+            prefix, crafted = rng.choice(PREFIXES), ()
+        names = _rand_names(rng, len(struct), prefix, crafted)
+        fmt = _rand_fmt(rng, len(struct))
+        descs = [rng.choice(DESCS) for _ in struct]
+        proto = {"fn": "read_fasta", "prefix": prefix, "layout": "plain", "digest": dg, "omit": omit, "enzyme": enz,
+                 "fmt": fmt}
+        if style == "positional":
+            proto["call"] = "pos"
+        e_enz, e_kw = effective_digest(proto)
+        jobs.append([seqs, dict(e_kw, enzyme=e_enz)])
+        metas.append((proto, names, descs, seqs, kind, style, rng.randrange(5040), rng.randrange(5040),
+                      rng.sample(range(len(struct)), len(struct))))
+    if jobs:
+        dig = _collect([_spawn("_digest_main", json.dumps(jobs), "0")])[0]
+        for (proto, names, descs, seqs, kind, style, k1, k2, perm), peps in zip(metas, dig):
+            ids = {p: i for i, p in enumerate(sorted({p for ps in peps for p in ps}))}
+            ents = []
+            for nm, ds, ps, sq in zip(names, descs, peps, seqs):
+                e = {"name": nm, "peps": [ids[p] for p in ps], "seq": sq}
+                if ds:
+                    e["desc"] = ds
+                ents.append(e)
+            enz = proto["enzyme"]
+            for k, order in ((k1, list(range(len(ents)))), (k2, perm)):
+                c = dict(proto, entries=[ents[i] for i in order], k=k, pepids=[[p, i] for p, i in ids.items()])
+                c["tags"] = (["realised", kind, "args=" + style, "enzyme=" + enz["pattern"]
+                              + ("(compiled)" if enz.get("compiled") else ""), "prefix=" + proto["prefix"]]
+                             + (["enzyme-omitted"] if "enzyme" in proto["omit"] else [])
+                             + (["reordered"] if order is perm else []) + _fmt_tags(c))
+                cases.append(c)
     # (4) malformed
     rng = ctx.sub("malformed")
     cases.append({"fn": "read_fasta", "entries": [], "prefix": "decoy_", "layout": "plain", "k": 0, "pepids": [],
@@ -411,8 +808,6 @@ def _sets(c):
 
 
 def nontrivial(c):
-    if "malformed" in c.get("tags", []):
-        return True
     s = list(_sets(c).items())
     for a, sa in s:
         for b, sb in s:
@@ -447,6 +842,8 @@ def oracle(c, i):
         return None                      # the property speaks about FASTA files with distinct protein names
     if i[0] == "hash-dependent":
         return f"result depends on PYTHONHASHSEED: {i[1]!r}"[:600]
+    if i[0] == "order-dependent":
+        return f"a second call with the same file, later in the same process, gives another result: {i[1]!r}"[:600]
     sets = _sets(c)
     pre = c.get("prefix", "decoy_")
     if not any(not n.startswith(pre) for n in sets):
@@ -455,6 +852,10 @@ def oracle(c, i):
         return f"read_fasta failed on a well-formed input: {i!r}"
     got = i[1]
     exp = expected(c)
+    if got.get("name_variants"):
+        return f"one group is written with different name strings: {got['name_variants']}"
+    if got.get("decoy_prefix_attr"):
+        return f"Proteins.decoy_prefix is {got['decoy_prefix_attr']}, read_fasta was given {c.get('prefix', 'decoy_')!r}"
     # clause by clause, for a readable message
     groups = {}
     for pep, g in got["unique"]:
@@ -489,21 +890,31 @@ def oracle(c, i):
 
 def shrink(c):
     ents = c["entries"]
-    if "digest" in c:
+    def simpler_fmt(cc):
+        f = cc.get("fmt")
+        if f is None:
+            if cc.get("layout", "plain") != "plain":
+                yield dict(cc, layout="plain")
+            return
+        plain = {"wrap": 0, "eol": "\n", "blank": 0, "blankin": False, "nfiles": 1, "finalnl": [1],
+                 "container": "str"}
+        for key in plain:
+            if f.get(key) != plain[key]:
+                yield dict(cc, fmt=dict(f, **{key: plain[key]}))
+        if any(e.get("desc") for e in cc["entries"]):
+            yield dict(cc, entries=[{k: v for k, v in e.items() if k != "desc"} for e in cc["entries"]])
+    if len(ents) > 3:
+        h = len(ents) // 2
+        yield dict(c, entries=ents[:h])
+        yield dict(c, entries=ents[h:])
+    for k in range(len(ents)):
+        yield dict(c, entries=ents[:k] + ents[k + 1:])
+    if "digest" not in c:
+        # structural realisation: a peptide can be taken out of a protein
         for k in range(len(ents)):
-            yield dict(c, entries=ents[:k] + ents[k + 1:])
-        return
-    def rebuild(struct, names):
-        return mk_case(struct, names, c.get("k", 0), c.get("tags", []), prefix=c.get("prefix", "decoy_"),
-                       layout=c.get("layout", "plain"))
-    struct = [e["peps"] for e in ents]
-    names = [e["name"] for e in ents]
-    for k in range(len(ents)):
-        yield rebuild(struct[:k] + struct[k + 1:], names[:k] + names[k + 1:])
-    for k in range(len(ents)):
-        for j in range(len(struct[k])):
-            s2 = [list(s) for s in struct]
-            del s2[k][j]
-            yield rebuild(s2, names)
-    if c.get("layout", "plain") != "plain":
-        yield dict(rebuild(struct, names), layout="plain")
+            for j in range(len(ents[k]["peps"])):
+                ps = list(ents[k]["peps"])
+                del ps[j]
+                e = dict(ents[k], peps=ps, seq="".join(pepstr(i) for i in ps) + ents[k].get("tail", ""))
+                yield dict(c, entries=ents[:k] + [e] + ents[k + 1:])
+    yield from simpler_fmt(c)
